@@ -282,3 +282,14 @@ def run(facts, rep, ctx):
     ef4(facts, rep)
     validator(facts, rep)
     tb4(facts, rep)
+
+
+_run_before_round3 = run
+
+
+def run(facts, rep, ctx):
+    """rules added after the second seeding round, second half (rules/round3.py)"""
+    _run_before_round3(facts, rep, ctx)
+    from . import round3
+    round3.qs1(facts, rep)
+
